@@ -40,6 +40,7 @@ type monitor struct {
 	audited   map[int]int64 // node -> highest height whose commit was audited
 
 	signs  map[int][]signRec
+	claims map[string]bool // node/height/round/block: a peer's "+2/3 prevotes seen" claim was accepted (not logged in the WAL)
 	altEnc map[string]bool // part-set hashes of Byzantine alternative encodings of a block
 
 	// C05 automaton per node
@@ -75,7 +76,7 @@ type c05state struct {
 }
 
 func newMonitor(s *sim) *monitor {
-	return &monitor{s: s, decided: map[int64][]byte{}, decidedBy: map[int64]int{}, audited: map[int]int64{}, signs: map[int][]signRec{}, altEnc: map[string]bool{}, c05: map[int]*c05state{}, invalid: map[string]string{},
+	return &monitor{s: s, decided: map[int64][]byte{}, decidedBy: map[int64]int{}, audited: map[int]int64{}, signs: map[int][]signRec{}, altEnc: map[string]bool{}, claims: map[string]bool{}, c05: map[int]*c05state{}, invalid: map[string]string{},
 		recv: map[int]map[string]map[string]bool{}, vals: map[int64]*types.ValidatorSet{}, signSeen: map[int]int{},
 		stateBytes: map[int64][]byte{}, stateFrom: map[int64]int{}, stateSeen: map[int]int64{}, evCommitted: map[string]int64{}, auditAt: map[int]int64{}, assembled: map[string]bool{}, hdrs: map[int64]*hdrRec{}}
 }
@@ -117,6 +118,15 @@ func (m *monitor) onByzProposal(p *byzProposal) {
 		m.invalid[bidStr(p.prop.BlockID)] = p.mut
 	}
 }
+
+// onMaj23Claim: a VoteSetMaj23 claim lets the node count a vote that conflicts with one it
+// already holds from that validator. The claim itself is never written to the WAL.
+func (m *monitor) onMaj23Claim(n *simNode, h int64, r int32, typ int, bid types.BlockID) {
+	if typ == 1 {
+		m.claims[fmt.Sprintf("%d/%d/%d/%s", n.idx, h, r, blockKey(bid))] = true
+	}
+}
+
 func (m *monitor) onDeliverProposal(n *simNode, p *types.Proposal)  {}
 func (m *monitor) onDeliverPart(n *simNode, h int64, p *types.Part) {}
 func (m *monitor) onDeliverVote(n *simNode, v *types.Vote) {
@@ -206,6 +216,12 @@ func (m *monitor) judgeSignatures(n *simNode) {
 				}
 				if !justified {
 					sig := "prevote-against-lock"
+					if lockInc(recs[:i], rec.h, lockR) != rec.inc && m.claims[fmt.Sprintf("%d/%d/%d/%s", n.idx, rec.h, lockR, lockB)] {
+						// the lock was taken by an earlier incarnation on a polka that needed a vote
+						// admitted through a peer's maj23 claim; claims are not in the WAL, so the
+						// replay refuses that vote and cannot rebuild the lock (known finding)
+						sig = "prevote-against-lock-after-crash-maj23-claim-not-in-wal"
+					}
 					if n.walPoisoned && lockInc(recs[:i], rec.h, lockR) != rec.inc {
 						// the lock was taken by an earlier incarnation whose WAL records cannot be
 						// replayed (known finding, see KNOWN_FINDINGS.txt)
